@@ -42,7 +42,7 @@ def run(g, cfg, pid, tier, seed, work, problems):
         for l in lines:
             p = l.split("\t")
             if len(p) >= 3:
-                m.setdefault((p[0], p[1], p[2] if p[1] in ("dec", "decio") else ""), []).append(l)
+                m.setdefault((p[0], p[1], p[2] if p[1] in ("dec", "decio", "decfb") else ""), []).append(l)
         return m
     ref = digests.get("opt,cfg-std")
     compared = 0
